@@ -193,7 +193,7 @@ fn dsp_family(c: &mut Cat, rng: &mut Rng) {
     c.measure("interpolate.floor_linear_sinc", Z, || { for (i, f) in fr.iter().enumerate() {
         let x = (i % 17) as f64 / 17.0;
         fl.next_source_frame(*f); bb(fl.interpolate(x)); li.next_source_frame(*f); bb(li.interpolate(x)); si.next_source_frame(*f); bb(si.interpolate(x));
-        sv.next_source_frame(fi[i]); bb(sv.interpolate(x)); if i % 300 == 0 { si.reset(); li.reset(); fl.reset(); } } });
+        sv.next_source_frame([fi[i][0] >> 2, fi[i][1] >> 2]); bb(sv.interpolate(x)); if i % 300 == 0 { si.reset(); li.reset(); fl.reset(); } } });
     c.measure("window.functions", Z, || { for i in 0..n { let p = i as f64 / n as f64; bb(<dasp_window::Hann as dasp_window::Window<f64>>::window(p)); bb(<dasp_window::Rectangle as dasp_window::Window<f64>>::window(p)); } });
 }
 
